@@ -74,7 +74,7 @@ def py_def(kind):
             (pv, 0, ('p', 0), 'succeed-once'), (pv, 1, ('p', 1), 'succeed-once'), (pv, 2, ('p', 2), 'succeed-once')][kind]
 
 
-def battery(yp):
+def battery(yp, meta=True):
     out = []
     for name, arity in BATTERY:
         vs = [yp.variable() for _ in range(arity)]
@@ -84,6 +84,24 @@ def battery(yp):
             if len(rows) > 12:
                 break
         out.append(rows)
+    # the same goals through the meta-call builtins must resolve identically (late binding); probed after the last step
+    for name, arity in ((('p', 1), ('r', 1)) if meta else ()):
+        v = yp.variable()
+        rows = []
+        for _ in yp.query('call', [yp.atom(name), v]):
+            rows.append((to_python(v),))
+            if len(rows) > 12:
+                break
+        if rows != out[BATTERY.index((name, arity))]:
+            out.append(('call/2 on %s differs' % name, rows))
+        L = yp.variable()
+        n = 0
+        for _ in yp.query('findall', [v, yp.functor(name, [v]), L]):
+            n += 1
+            if to_python(L) != [r[0] for r in rows]:
+                out.append(('findall on %s differs' % name, to_python(L)))
+        if n != 1:
+            out.append(('findall on %s succeeded %d times' % (name, n),))
     return out
 
 
@@ -117,7 +135,7 @@ def make_body(steps, info):
     def body(vals):
         ch.install_registry(False)
         g = lambda k: vals[ix[k]]
-        yp = YP()
+        yp = ch.new_engine()        # construction involves no symbolic value; every later operation is traced
         facts, defs = {}, {}
         changed = False
         for s in range(steps):
@@ -160,7 +178,7 @@ def make_body(steps, info):
                 else:
                     yp.clear()
                     facts, defs = {}, {}
-                got = battery(yp)
+                got = battery(yp, meta=(s == steps - 1))
             except Exception as e:
                 ch.note(info, 'step %d (%s) raised %s: %s', s, opname, type(e).__name__, str(e)[:150])
                 return ch.VIOLATED
@@ -275,9 +293,17 @@ def units(tier, seed):
     steps = 3 if tier == 'quick' else 4
     depth = 2
     import itertools
+    reg = OPS.index('register')
+    combos = []
     for combo in itertools.product(range(len(OPS)), repeat=depth):
         fx = {'op%d' % i: c for i, c in enumerate(combo)}
-        us.append(dict(id='a.' + '-'.join(OPS[c] for c in combo), kind='a', steps=steps, fixed=fx, ob='C08.a',
+        if combo[0] == reg and combo[1] == reg:
+            for k0 in range(8):
+                combos.append((combo, dict(fx, kind0=k0), '.kind%d' % k0))
+        else:
+            combos.append((combo, fx, ''))
+    for combo, fx, tag in combos:
+        us.append(dict(id='a.' + '-'.join(OPS[c] for c in combo) + tag, kind='a', steps=steps, fixed=fx, ob='C08.a',
                        timeout=300 if tier == 'quick' else 1500, weight=60,
                        bounds='history of %d operations starting with %s' % (steps, [OPS[c] for c in combo])))
     us.append(dict(id='b.keys-smt', kind='b', fixed={}, ob='C08.b', timeout=300, weight=60,
